@@ -59,7 +59,16 @@ class TSource:
         return iter(res)
 
 
+# a change that makes threads hang (a real lock taken inside the cache, a lost wake-up) costs one
+# scheduler timeout per schedule: after a few of them the remaining schedules are not run — each is
+# reported as a failure straight away, so the check ends in minutes, with a violation
+HANGS = [0]
+MAX_HANGS = 3
+
+
 def run_case(case, count_points=False):
+    if HANGS[0] >= MAX_HANGS:
+        return {"err": "deadlock: not run — earlier schedules of this run timed out (threads hang)", "points": None}
     tls = threading.local()
 
     def who():
@@ -100,6 +109,8 @@ def run_case(case, count_points=False):
         r = run_threads(progs, [tuple(p) for p in case["preempt"]], case["start_order"], TRACE_FILES, setup_lock)
         sched_ref[0] = None
         if r["deadlock"]:
+            if r["deadlock"].startswith("timeout"):
+                HANGS[0] += 1
             return {"err": "deadlock: " + r["deadlock"], "points": r["points"]}
         if any(r["errors"]):
             return {"err": "exception in thread: " + str([e for e in r["errors"] if e]), "points": r["points"]}
